@@ -89,7 +89,13 @@ def lawFailures (x y z : Float) (i j : Int) : List String :=
         | none => true)
       | none => true),
     ("div_mono", imp (FloatOps.le x y && FloatOps.isFinite z && pos z) (FloatOps.le (FloatOps.div x z) (FloatOps.div y z))),
-    ("mul_mono", imp (FloatOps.le x y && FloatOps.isFinite z && pos z) (FloatOps.le (FloatOps.mul x z) (FloatOps.mul y z)))]
+    ("mul_mono", imp (FloatOps.le x y && FloatOps.isFinite z && pos z) (FloatOps.le (FloatOps.mul x z) (FloatOps.mul y z))),
+    -- not a law: the hypothesis `SnapIdem` of `revalidate_unchanged_partial` / `call_idem_of_snapIdem`
+    ("hypothesis:SnapIdem", imp (FloatOps.isFinite z && pos z) (match DType.snap z x with
+      | some w => imp (FloatOps.isFinite w) (match DType.snap z w with
+        | some w' => FloatOps.same w' w
+        | none => false)
+      | none => true))]
   (checks.filter (fun c => !c.2)).map (·.1)
 
 def handle (j : Json) : R Json := do
@@ -158,6 +164,31 @@ def handle (j : Json) : R Json := do
           ("re1", outcomeToJson (reval (okVal (some mval)) false)), ("re2", outcomeToJson (reval (okVal (some mval)) true)),
           ("call", outcomeToJson (some mcall)), ("recall", outcomeToJson mrecall)]),
         ("judge", jstrs verdict)]
+  | "change" =>
+    -- a value carried into a real node: `change` on a parameter holding `held`, or (held = null) `do` with an argument;
+    -- stored / received value or error class, with the witness hint
+    let dt ← dtypeOfJson (← fld j "dt")
+    let cand ← jvalOfJson (← fld j "cand")
+    let held ← optPVal (← fld j "held")
+    let hint ← optPVal (← fld j "hint")
+    let out ← outcomeOfJson (← fld j "out")
+    let m := match held with
+      | some h => outcomeOfRes (changeValue dt cand h)
+      | none => outcomeOfRes (acceptWire dt cand none)
+    let verdict := match out with
+      | some o => judgeChange dt cand held hint o
+      | none => ["change:missing"]
+    return Json.mkObj [("wf", .bool dt.wfB), ("model", outcomeToJson (some m)), ("judge", jstrs verdict)]
+  | "history" =>
+    -- a history of driver updates / change requests on one parameter: the value held at the end
+    let dt ← dtypeOfJson (← fld j "dt")
+    let held0 ← pvalOfJson (← fld j "held0")
+    let evs ← (← fldArr j "events").mapM (fun e => do
+      match e.getObjVal? "u", e.getObjVal? "c" with
+      | .ok v, _ => return ParamEvent.update (← pvalOfJson v)
+      | _, .ok c => return ParamEvent.change (← jvalOfJson c)
+      | _, _ => throw "bad event")
+    return Json.mkObj [("wf", .bool dt.wfB), ("held", pvalToJson (holdRun dt held0 evs))]
   | "laws" =>
     let tuples ← (← fldArr j "tuples").mapM (fun t => do
       match ← arr t with
